@@ -78,31 +78,31 @@ Theorem clip_outside_transparent :
 Proof. exact merge_image_global_outside. Qed.
 
 (* Per-layer clip (LimitedLayer): outside its mask a clipped layer leaves the pixel under it untouched, wherever
-   it sits in the stack - provided the layer is not merged on the Image.blend path (request not transparent and
-   layer opacity < 1).  _partial: that path is excluded, see layer_clip_blend_path_refuted. *)
-Theorem layer_clip_outside_untouched_partial :
+   it sits in the stack and on every path of the loop (alpha_composite, Image.blend for opacity < 1, paste);
+   for a result without alpha channel the pixel under it is a valid opaque pixel.  (Holds for /repo since the
+   repair "layer opacity in non-transparent results leaves transparent parts of the layer untouched"; the
+   older blend path is refuted by Auth_proofs.old_blend_path_refuted.) *)
+Theorem layer_clip_outside_untouched :
   forall composite m d s,
     lm_clip m = true ->
-    (composite = true \/ op_lt1 (layer_opacity m) = false) ->
     (composite = false -> px_ok d /\ px_a d = 255) ->
     step_px composite m d s true = d.
 Proof. exact step_px_clip_outside. Qed.
 
-(* the excluded path does violate the property: a layer with opacity 1/2 clipped away over a black background
-   leaves grey (finding: merge, layer clip, blend path) *)
-Theorem layer_clip_blend_path_refuted :
-  exists m d s, lm_clip m = true /\ px_ok d /\ px_a d = 255 /\ step_px false m d s true <> d.
-Proof. exact step_px_clip_blend_refuted. Qed.
-
 (* hence: a pixel outside the geometry of every layer of the answer (all limited) is the background *)
-Theorem all_layers_clipped_outside_is_background_partial :
+Theorem all_layers_clipped_outside_is_background :
   forall o ms col,
     bg_ok o ->
-    Forall (fun m => lm_clip m = true /\
-                     (imode_eqb (create_mode o) M_RGBA = true \/ op_lt1 (layer_opacity m) = false)) ms ->
+    Forall (fun m => lm_clip m = true) ms ->
     Forall (fun sb : px * bool => snd sb = true) col ->
     merge_px o ms col None = create_px o.
 Proof. exact merge_px_all_outside. Qed.
+
+(* inside the global mask the global clip keeps the merged pixel, colour and alpha *)
+Theorem global_clip_inside_kept :
+  forall o composite r,
+    px_ok r -> (composite = false -> px_a r = 255) -> global_clip_px o composite r false = r.
+Proof. exact global_clip_inside. Qed.
 
 (* pixels inside keep their content: an opaque pixel of a single limited layer without opacity, inside the layer
    mask and inside the global mask (or without one), comes out unchanged *)
